@@ -208,14 +208,17 @@ CloseEnd ==
      steps' = IF Hist THEN Append(steps, o) ELSE <<o>>
   /\ UNCHANGED <<plan, ws, reg, closedIds, retries, nextKey, nrun, restarted, todo, graceful, h>>
 \* an exception reaches the closing thread while it joins the clean-up threads (pool.py:198-206): the clean-up threads
-\* that are still running are aborted (SystemExit).  Their workers have been close()d already - an idle one ends on
-\* its own - but a stuck one has not been terminated yet.  The exception propagates; the flag is left as it is.
+\* that are still running are aborted (SystemExit).  A worker whose thread had already close()d it ends on its own; one
+\* whose thread was aborted earlier (it had not been scheduled yet on a loaded machine) or that is slow to exit is still
+\* alive, idle, after the call; a stuck one has not been terminated yet.  The exception propagates; the flag is left as
+\* it is, so the next close()/terminate() cleans up whatever is left.
 Interrupt ==
   /\ pc = "closingI" /\ todo # {}
   /\ pc' = "idle" /\ todo' = {}
   /\ \E A \in SUBSET todo :                  \* A = clean-up threads that are aborted; the others run to completion on their own
        LET wsx == [w \in W |-> IF w \notin todo \/ ~Alive(w) THEN ws[w]
-                              ELSE IF ~ws[w].stuck THEN [ws[w] EXCEPT !.os = "dead"]          \* close()d already
+                              ELSE IF ~ws[w].stuck THEN (IF w \in A THEN ws[w]               \* aborted before it got to close() the worker
+                                                         ELSE [ws[w] EXCEPT !.os = "dead"])   \* (or the worker is slow to exit): still alive; else close()d, ends
                               ELSE IF w \in A \/ ws[w].kind = "thread" \/ force = "false" THEN ws[w]
                               ELSE [ws[w] EXCEPT !.os = "dead"]] IN                           \* its thread went on to terminate()
        /\ ws' = wsx
